@@ -94,8 +94,18 @@ fn show_state(c: &dyn Lru) -> String {
     format!("{used}:{n}:{flen}:{fcap}")
 }
 
+/// pack ids and offsets that differ only in high bits: a cache that truncates either aliases keys
+const PIDS: [u32; 16] = [
+    0, 1, 1 << 15, 1 << 16, (1 << 16) + 1, 1 << 31, 0xffff_0001, u32::MAX, (1 << 15) | (1 << 16), 0xffff, 2, (1 << 24) + 1,
+    0x8000_0001, 0x0001_8000, 0x7fff_ffff, 0x0100_0000,
+];
+const OFFS: [u64; 16] = [
+    0, 1, 12, 13, 1 << 16, (1 << 16) + 12, 1 << 32, (1 << 32) + 1, (1 << 32) + 12, 1 << 48, u64::MAX, 1 << 31, (1 << 31) + 12,
+    (1 << 63) + 12, 0xffff_ffff, (1 << 40) + 13,
+];
+/// the model's key is the byte; this map to (pack_id, offset) is injective
 fn lru_key(key: u8) -> (u32, u64) {
-    (u32::from(key >> 4), u64::from(key & 15))
+    (PIDS[(key >> 4) as usize], OFFS[(key & 15) as usize])
 }
 
 fn lru_transcript(c: &Case) -> String {
@@ -117,6 +127,33 @@ fn lru_transcript(c: &Case) -> String {
                 None => "-".into(),
             };
             out.push(format!("g{}/{}", h, show_state(l.as_ref())));
+        } else {
+            out.push("?".into());
+        }
+    }
+    out.join(" ")
+}
+
+/// `mem <cap> <op>*`: lru::MemoryCappedHashmap through the DecodeEntry API
+fn mem_transcript(c: &Case) -> String {
+    let cap = f_u64(c, 1);
+    if cap == 0 {
+        return "invalid".into();
+    }
+    let mut l = cache::lru::MemoryCappedHashmap::new(cap as usize);
+    let mut out = Vec::new();
+    let mut buf = Vec::new();
+    for op in c.iter().skip(2) {
+        if op.len() >= 4 && op[0] == b'p' {
+            let (p, o) = lru_key(op[1]);
+            l.put(p, o, &op[4..], kind_of(op[2]), op[3] as usize);
+            out.push("p".to_string());
+        } else if op.len() >= 2 && op[0] == b'g' {
+            let (p, o) = lru_key(op[1]);
+            out.push(match l.get(p, o, &mut buf) {
+                Some((k, csz)) => format!("g{}:{}:{}", kind_num(k), csz, digest(&buf)),
+                None => "g-".into(),
+            });
         } else {
             out.push("?".into());
         }
@@ -193,10 +230,21 @@ fn parse_cfg(c: &[u8]) -> Option<Cfg> {
     }
 }
 
-fn parse_dec(c: &Case) -> Option<(Vec<Cfg>, Vec<usize>, Vec<PEntry>)> {
+/// `dec` and `mdec` cases. For `mdec <cfgs> <reqs> <k> <pids> entries…` the entry list is k packs of equal
+/// length; entry indices are global, bases must stay inside their pack.
+struct DecCase {
+    cfgs: Vec<Cfg>,
+    reqs: Vec<usize>,
+    entries: Vec<PEntry>,
+    k: usize,
+    pids: Vec<Option<u32>>,
+}
+fn parse_dec(c: &Case) -> Option<DecCase> {
+    let multi = f_str(c, 0) == b"mdec";
     let cfgs: Option<Vec<Cfg>> = f_str(c, 1).split(|b| *b == b',').map(parse_cfg).collect();
     let cfgs = cfgs?;
-    let fields = &c[3.min(c.len())..];
+    let first = if multi { 5 } else { 3 };
+    let fields = &c[first.min(c.len())..];
     if fields.len() % 4 != 0 {
         return None;
     }
@@ -216,7 +264,31 @@ fn parse_dec(c: &Case) -> Option<(Vec<Cfg>, Vec<usize>, Vec<PEntry>)> {
     if reqs.iter().any(|i| *i >= entries.len()) {
         return None;
     }
-    Some((cfgs, reqs, entries))
+    let (k, pids) = if multi {
+        let k = numv(f_str(c, 3)) as usize;
+        let pf = f_str(c, 4);
+        let n = entries.len();
+        if !(1..=4).contains(&k) || n == 0 || n % k != 0 || pf.len() != k || pf.iter().any(|b| *b >= 16) {
+            return None;
+        }
+        for (a, x) in pf.iter().enumerate() {
+            if pf[..a].contains(x) {
+                return None;
+            }
+        }
+        let seg = n / k;
+        for (i, e) in entries.iter().enumerate() {
+            if let EK::Ofs(b) | EK::Ref(b) = &e.k {
+                if *b / seg != i / seg {
+                    return None;
+                }
+            }
+        }
+        (k, pf.iter().map(|b| Some(PIDS[*b as usize])).collect())
+    } else {
+        (1, vec![None])
+    };
+    Some(DecCase { cfgs, reqs, entries, k, pids })
 }
 
 static COUNTER: AtomicU64 = AtomicU64::new(0);
@@ -321,14 +393,50 @@ fn build_pack(entries: &[PEntry]) -> Built {
     Built { _tmp: TmpFile(path), file, offsets, csz }
 }
 
+/// k packs (entries rebased to pack-local indices) sharing caches and buffers
+struct Multi {
+    packs: Vec<(Built, Vec<PEntry>)>,
+    seg: usize,
+}
+impl Multi {
+    fn new(d: &DecCase) -> Multi {
+        let seg = (d.entries.len() / d.k).max(1);
+        let mut packs = Vec::new();
+        for (j, chunk) in d.entries.chunks(seg).enumerate() {
+            let local: Vec<PEntry> = chunk
+                .iter()
+                .map(|e| {
+                    let mut e = e.clone();
+                    e.k = match e.k {
+                        EK::Ofs(b) => EK::Ofs(b.wrapping_sub(j * seg)),
+                        EK::Ref(b) if b >= j * seg => EK::Ref(b - j * seg),
+                        k => k,
+                    };
+                    e
+                })
+                .collect();
+            let mut b = build_pack(&local);
+            if let Some(Some(id)) = d.pids.get(j) {
+                b.file.id = *id;
+            }
+            packs.push((b, local));
+        }
+        Multi { packs, seg }
+    }
+    fn locate(&self, gi: usize) -> (&Built, &[PEntry], usize) {
+        let j = (gi / self.seg).min(self.packs.len() - 1);
+        (&self.packs[j].0, &self.packs[j].1, gi - j * self.seg)
+    }
+}
+
 fn decode(
-    b: &Built,
-    entries: &[PEntry],
-    i: usize,
+    m: &Multi,
+    gi: usize,
     out: &mut Vec<u8>,
     inflate: &mut gix_features::zlib::Inflate,
     cache: &mut dyn DecodeEntry,
 ) -> Result<data::decode::entry::Outcome, data::decode::Error> {
+    let (b, entries, i) = m.locate(gi);
     let entry = b.file.entry(b.offsets[i])?;
     let resolve = |id: &gix_hash::oid, out: &mut Vec<u8>| -> Option<ResolvedBase> {
         let id = id.as_bytes();
@@ -372,15 +480,15 @@ fn new_pack_cache(inner: &Inner) -> Box<dyn DecodeEntry + Send> {
     }
 }
 
-/// A `gix_pack::Find` store over one pack, to put `gix_odb::Cache` in front of.
+/// A `gix_pack::Find` store over the packs, to put `gix_odb::Cache` in front of.
 struct Store<'a> {
-    b: &'a Built,
-    entries: &'a [PEntry],
+    m: &'a Multi,
+    n: usize,
     inflate: RefCell<gix_features::zlib::Inflate>,
 }
 impl gix_pack::Find for Store<'_> {
     fn contains(&self, id: &gix_hash::oid) -> bool {
-        id_index(id.as_bytes(), 0xAA).map_or(false, |i| i < self.entries.len())
+        id_index(id.as_bytes(), 0xAA).map_or(false, |i| i < self.n)
     }
     fn try_find_cached<'b>(
         &self,
@@ -388,13 +496,14 @@ impl gix_pack::Find for Store<'_> {
         buffer: &'b mut Vec<u8>,
         pack_cache: &mut dyn DecodeEntry,
     ) -> Result<Option<(gix_object::Data<'b>, Option<data::entry::Location>)>, gix_object::find::Error> {
-        let Some(i) = id_index(id.as_bytes(), 0xAA).filter(|i| *i < self.entries.len()) else {
+        let Some(i) = id_index(id.as_bytes(), 0xAA).filter(|i| *i < self.n) else {
             return Ok(None);
         };
-        let r = decode(self.b, self.entries, i, buffer, &mut self.inflate.borrow_mut(), pack_cache)?;
+        let r = decode(self.m, i, buffer, &mut self.inflate.borrow_mut(), pack_cache)?;
+        let (b, _, li) = self.m.locate(i);
         Ok(Some((
             gix_object::Data { kind: r.kind, data: buffer.as_slice() },
-            Some(data::entry::Location { pack_id: 0, entry_size: r.compressed_size, pack_offset: self.b.offsets[i] }),
+            Some(data::entry::Location { pack_id: b.file.id, entry_size: r.compressed_size, pack_offset: b.offsets[li] }),
         )))
     }
     fn location_by_oid(&self, _id: &gix_hash::oid, _buf: &mut Vec<u8>) -> Option<data::entry::Location> {
@@ -412,18 +521,19 @@ impl gix_pack::Find for Store<'_> {
 type ReqResult = Result<Option<(u8, Vec<u8>, String)>, ()>;
 
 /// Run the request sequence under one configuration; `f` sees every result.
-fn run_cfg(b: &Built, entries: &[PEntry], reqs: &[usize], cfg: &Cfg, f: &mut dyn FnMut(usize, usize, ReqResult) -> bool) {
+fn run_cfg(m: &Multi, n: usize, reqs: &[usize], cfg: &Cfg, f: &mut dyn FnMut(usize, usize, ReqResult) -> bool) {
     match cfg.odb {
         None => {
             let mut cache = new_pack_cache(&cfg.inner);
             let mut out = Vec::new();
             let mut inflate = gix_features::zlib::Inflate::default();
             for (pos, &i) in reqs.iter().enumerate() {
-                if cyclic(entries, i) {
+                let (b, entries, li) = m.locate(i);
+                if cyclic(entries, li) {
                     f(pos, i, Err(()));
                     return;
                 }
-                let r = match decode(b, entries, i, &mut out, &mut inflate, cache.as_mut()) {
+                let r = match decode(m, i, &mut out, &mut inflate, cache.as_mut()) {
                     Ok(o) => Some((
                         kind_num(o.kind),
                         out.clone(),
@@ -432,7 +542,7 @@ fn run_cfg(b: &Built, entries: &[PEntry], reqs: &[usize], cfg: &Cfg, f: &mut dyn
                             kind_num(o.kind),
                             o.num_deltas,
                             o.decompressed_size,
-                            u8::from(o.compressed_size == b.csz[i]),
+                            u8::from(o.compressed_size == b.csz[li]),
                             o.object_size,
                             digest(&out)
                         ),
@@ -445,7 +555,7 @@ fn run_cfg(b: &Built, entries: &[PEntry], reqs: &[usize], cfg: &Cfg, f: &mut dyn
             }
         }
         Some(objcap) => {
-            let store = Store { b, entries, inflate: RefCell::new(Default::default()) };
+            let store = Store { m, n, inflate: RefCell::new(Default::default()) };
             let mut c = gix_odb::Cache::from(store);
             if !matches!(cfg.inner, Inner::Never) {
                 let inner = cfg.inner.clone();
@@ -456,7 +566,8 @@ fn run_cfg(b: &Built, entries: &[PEntry], reqs: &[usize], cfg: &Cfg, f: &mut dyn
             }
             let mut out = Vec::new();
             for (pos, &i) in reqs.iter().enumerate() {
-                if cyclic(entries, i) {
+                let (_, entries, li) = m.locate(i);
+                if cyclic(entries, li) {
                     f(pos, i, Err(()));
                     return;
                 }
@@ -479,15 +590,16 @@ fn run_cfg(b: &Built, entries: &[PEntry], reqs: &[usize], cfg: &Cfg, f: &mut dyn
 }
 
 fn dec_transcript(c: &Case) -> String {
-    let Some((cfgs, reqs, entries)) = parse_dec(c) else {
+    let Some(dc) = parse_dec(c) else {
         return "invalid".into();
     };
-    let b = build_pack(&entries);
+    let m = Multi::new(&dc);
+    let (cfgs, reqs) = (&dc.cfgs, &dc.reqs);
     let mut lines = Vec::new();
-    for cfg in &cfgs {
+    for cfg in cfgs {
         let mut parts = Vec::new();
         let mut hang = false;
-        run_cfg(&b, &entries, &reqs, cfg, &mut |_pos, _i, r| match r {
+        run_cfg(&m, dc.entries.len(), reqs, cfg, &mut |_pos, _i, r| match r {
             Ok(Some((_, _, line))) => {
                 parts.push(line);
                 true
@@ -512,7 +624,8 @@ fn dec_transcript(c: &Case) -> String {
 fn imp(c: &Case) -> String {
     match f_str(c, 0) {
         b"lru" => lru_transcript(c),
-        b"dec" => dec_transcript(c),
+        b"dec" | b"mdec" => dec_transcript(c),
+        b"mem" => mem_transcript(c),
         _ => "?".into(),
     }
 }
@@ -619,10 +732,11 @@ fn oracle_objects(entries: &[PEntry]) -> Vec<Option<(u8, Vec<u8>)>> {
 }
 
 fn prop_dec(c: &Case) -> Verdict {
-    let Some((cfgs, reqs, entries)) = parse_dec(c) else {
+    let Some(dc) = parse_dec(c) else {
         return Verdict::ok(false, "invalid-case");
     };
-    let objs = oracle_objects(&entries);
+    let (cfgs, reqs, entries) = (&dc.cfgs, &dc.reqs, &dc.entries);
+    let objs = oracle_objects(entries);
     // ids reported by git for the entries (real packs): the oracle itself must reproduce them
     for (i, e) in entries.iter().enumerate() {
         if e.id.len() == 20 {
@@ -636,13 +750,13 @@ fn prop_dec(c: &Case) -> Verdict {
             }
         }
     }
-    let b = build_pack(&entries);
+    let m = Multi::new(&dc);
     let mut nontrivial = false;
     let mut git_ids = false;
-    for cfg in &cfgs {
+    for cfg in cfgs {
         let mut failure: Option<(String, String)> = None;
         let r = catch_unwind(AssertUnwindSafe(|| {
-            run_cfg(&b, &entries, &reqs, cfg, &mut |pos, i, r| {
+            run_cfg(&m, entries.len(), reqs, cfg, &mut |pos, i, r| {
                 let Some((ek, ed)) = &objs[i] else { return !matches!(r, Err(())) };
                 match r {
                     Ok(Some((k, bytes, _))) => {
@@ -687,7 +801,7 @@ fn prop_dec(c: &Case) -> Verdict {
             // malformed entries may panic (see NOTES); requests after them are not judged
         }
     }
-    Verdict::ok(nontrivial, if git_ids { "dec-git-pack" } else if nontrivial { "dec-cached" } else { "dec-plain" })
+    Verdict::ok(nontrivial, if dc.k > 1 { "dec-multi-pack" } else if git_ids { "dec-git-pack" } else if nontrivial { "dec-cached" } else { "dec-plain" })
 }
 
 fn prop_lru(c: &Case) -> Verdict {
@@ -736,10 +850,43 @@ fn prop_lru(c: &Case) -> Verdict {
     Verdict::ok(c.len() > 5, if hits > 0 { "lru-hits" } else { "lru" })
 }
 
+/// MemoryCappedHashmap through the cache API: get returns nothing or what was last put under exactly
+/// that (pack_id, offset); values that are too heavy are refused and leave the older value in place
+fn prop_mem(c: &Case) -> Verdict {
+    let cap = f_u64(c, 1) as usize;
+    if cap == 0 {
+        return Verdict::ok(false, "invalid-case");
+    }
+    let mut l = cache::lru::MemoryCappedHashmap::new(cap);
+    let mut last_put: HashMap<u8, (u8, usize, Vec<u8>)> = HashMap::new();
+    let mut buf = Vec::new();
+    let mut hits = 0;
+    for (n, op) in c.iter().skip(2).enumerate() {
+        if op.len() >= 4 && op[0] == b'p' {
+            let (p, o) = lru_key(op[1]);
+            l.put(p, o, &op[4..], kind_of(op[2]), op[3] as usize);
+            if op.len() - 4 < cap {
+                last_put.insert(op[1], (op[2], op[3] as usize, op[4..].to_vec()));
+            }
+        } else if op.len() >= 2 && op[0] == b'g' {
+            let (p, o) = lru_key(op[1]);
+            if let Some((k, csz)) = l.get(p, o, &mut buf) {
+                hits += 1;
+                match last_put.get(&op[1]) {
+                    Some((ek, ecsz, ed)) if kind_num(k) == *ek && csz == *ecsz && buf == *ed => {}
+                    _ => return Verdict::fail("mem-get-wrong", format!("op #{n}")),
+                }
+            }
+        }
+    }
+    Verdict::ok(c.len() > 4, if hits > 0 { "mem-hits" } else { "mem" })
+}
+
 fn prop(c: &Case) -> Verdict {
     match f_str(c, 0) {
         b"lru" => prop_lru(c),
-        b"dec" => prop_dec(c),
+        b"mem" => prop_mem(c),
+        b"dec" | b"mdec" => prop_dec(c),
         _ => Verdict::ok(false, "unknown-op"),
     }
 }
@@ -989,24 +1136,153 @@ fn lru_case(size: u64, limit: u64, ops: Vec<Vec<u8>>) -> Case {
     c
 }
 
-fn random_lru(rng: &mut Rng) -> Case {
-    let size = *rng.pick(&SIZES);
-    let limit = *rng.pick(&[0u64, 1, 2, 7, 8, 9, 15, 16, 17, 20, 24, 40, 50, 64, 100, 101, 1000]);
+/// a small set of keys, many of which agree in the low bits of the pack id or of the offset
+fn pick_keys(rng: &mut Rng) -> Vec<u8> {
+    match rng.below(4) {
+        0 => (0..rng.range(1, 6)).map(|_| rng.below(256) as u8).collect(),
+        1 => {
+            // one offset, pack ids that collide when truncated to 16 (or 8, 15, 31) bits
+            let off = rng.below(16) as u8;
+            [0u8, 3, 1, 4, 6, 2, 8, 7, 9, 12, 5].iter().map(|p| (p << 4) | off).collect()
+        }
+        2 => {
+            // one pack id, offsets that collide when truncated to 32 or 16 bits
+            let pid = rng.below(16) as u8;
+            [0u8, 6, 1, 7, 2, 8, 5, 13, 3, 15, 9].iter().map(|o| (pid << 4) | o).collect()
+        }
+        _ => (0..12).map(|i| i as u8).collect(),
+    }
+}
+
+fn random_ops(rng: &mut Rng, lens: &[usize]) -> Vec<Vec<u8>> {
+    let keys = pick_keys(rng);
     let n = rng.range(3, 70);
-    let lens = [0usize, 1, 1, 2, 7, 8, 9, 15, 16, 17, 20, 24, 33, 50, 64, 100, 101];
-    let nkeys = *rng.pick(&[1u64, 2, 4, 12, 70]);
     let mut ops = Vec::new();
     for i in 0..n {
-        let key = rng.below(nkeys) as u8;
+        let key = *rng.pick(&keys);
         if rng.chance(3, 5) {
-            let len = *rng.pick(&lens);
-            let data: Vec<u8> = (0..len).map(|j| (i as u8).wrapping_mul(7).wrapping_add(j as u8)).collect();
+            let len = *rng.pick(lens);
+            let data: Vec<u8> = (0..len).map(|j| (i as u8).wrapping_mul(7).wrapping_add(j as u8).wrapping_add(key)).collect();
             ops.push(put_op(key, rng.range(1, 4) as u8, rng.below(256) as u8, &data));
         } else {
             ops.push(vec![b'g', key]);
         }
     }
-    lru_case(size, limit, ops)
+    ops
+}
+
+fn random_lru(rng: &mut Rng) -> Case {
+    let size = *rng.pick(&SIZES);
+    let limit = *rng.pick(&[0u64, 1, 2, 7, 8, 9, 15, 16, 17, 20, 24, 40, 50, 64, 100, 101, 1000]);
+    let lens = [0usize, 1, 1, 2, 7, 8, 9, 15, 16, 17, 20, 24, 33, 50, 64, 100, 101];
+    lru_case(size, limit, random_ops(rng, &lens))
+}
+
+fn random_mem(rng: &mut Rng) -> Case {
+    let cap = *rng.pick(&[1u64, 2, 9, 20, 64, 100, 300, 5000]);
+    let lens = [0usize, 1, 1, 2, 7, 8, 9, 16, 19, 20, 33, 50, 64, 99, 100];
+    let mut c = vec![tag("mem"), num(cap)];
+    c.extend(random_ops(rng, &lens));
+    c
+}
+
+/// pack ids (indices into PIDS) that collide in their low bits, and some that do not
+const PID_SETS: [&[u8]; 8] = [&[0, 3], &[1, 4], &[1, 6], &[2, 8], &[7, 9], &[0, 3, 5], &[1, 4, 6, 12], &[10, 11]];
+
+/// k packs of the same shape (equal entry and data offsets wherever the zlib streams have equal
+/// lengths) but different contents, decoded through one shared cache
+fn mdec_case(rng: &mut Rng) -> Case {
+    let mut a = synth_pack(rng);
+    while a.len() > 40 {
+        a = synth_pack(rng);
+    }
+    let pids = *rng.pick(&PID_SETS);
+    let k = pids.len();
+    let n = a.len();
+    let mut entries: Vec<PEntry> = Vec::new();
+    for j in 0..k {
+        for e in &a {
+            let mut e = e.clone();
+            if j > 0 {
+                // same lengths, other bytes: flip letters of base data and of inserted literals
+                match &e.k {
+                    EK::Base(_) => {
+                        for b in e.data.iter_mut() {
+                            if b.is_ascii_lowercase() {
+                                *b = b'a' + (*b - b'a' + j as u8) % 26;
+                            }
+                        }
+                    }
+                    _ => {
+                        // walk the instructions; literals only
+                        let mut i = 0;
+                        for _ in 0..2 {
+                            while i < e.data.len() && e.data[i] & 0x80 != 0 {
+                                i += 1;
+                            }
+                            i += 1;
+                        }
+                        while i < e.data.len() {
+                            let cmd = e.data[i];
+                            i += 1;
+                            if cmd & 0x80 != 0 {
+                                i += (cmd & 0x7f).count_ones() as usize;
+                            } else {
+                                for b in e.data.iter_mut().skip(i).take(cmd as usize) {
+                                    if b.is_ascii_lowercase() {
+                                        *b = b'a' + (*b - b'a' + j as u8) % 26;
+                                    }
+                                }
+                                i += cmd as usize;
+                            }
+                        }
+                        if let EK::Ext(_, base) = &mut e.k {
+                            for b in base.iter_mut() {
+                                if b.is_ascii_lowercase() {
+                                    *b = b'a' + (*b - b'a' + j as u8) % 26;
+                                }
+                            }
+                        }
+                    }
+                }
+            }
+            e.k = match e.k {
+                EK::Ofs(b) => EK::Ofs(b + j * n),
+                EK::Ref(b) => EK::Ref(b + j * n),
+                x => x,
+            };
+            entries.push(e);
+        }
+    }
+    // the same local entries of every pack, interleaved, with repetitions
+    let mut reqs = Vec::new();
+    let locals: Vec<usize> = match rng.below(3) {
+        0 => (0..n).collect(),
+        1 => (0..n).rev().collect(),
+        _ => (0..rng.range(1, 12)).map(|_| rng.below(n as u64) as usize).collect(),
+    };
+    for l in locals.iter().take(20) {
+        for j in 0..k {
+            if l + j * n < 256 {
+                reqs.push((l + j * n) as u8);
+            }
+        }
+        if rng.chance(1, 2) {
+            for j in (0..k).rev() {
+                if l + j * n < 256 {
+                    reqs.push((l + j * n) as u8);
+                }
+            }
+        }
+    }
+    let plain = ["n", "s1:0", "s2:0", "s3:0", "s4:0", "s10:0", "s64:0", "s64:300", "s10:100", "m64", "m300", "m1000", "m1048576",
+        "o0+s64:0", "o0+m1048576", "o60+s2:0", "o100000+s64:0"];
+    let cfgs: Vec<&str> = (0..rng.range(2, 4)).map(|_| *rng.pick(&plain)).collect();
+    let mut c = dec_case(cfgs.join(",").into_bytes(), reqs, &entries);
+    c[0] = tag("mdec");
+    c.insert(3, num(k));
+    c.insert(4, pids.to_vec());
+    c
 }
 
 fn boundary(out: &mut Vec<Case>) {
@@ -1051,6 +1327,34 @@ fn boundary(out: &mut Vec<Case>) {
     // empty data
     out.push(lru_case(2, 8, vec![put_op(1, 3, 0, b""), vec![b'g', 1], put_op(2, 3, 0, b"12345678"), put_op(3, 3, 0, b"1"), vec![b'g', 1]]));
 
+    // keys that differ only in the high bits of the pack id (2^16, 2^31, 0xffff_0001 ...) or of the offset
+    for (a, b) in [(0x00u8, 0x30u8), (0x11, 0x41), (0x11, 0x61), (0x22, 0x82), (0x70, 0x90), (0x00, 0x50), (0x10, 0xc0), (0x00, 0x06), (0x02, 0x08), (0x04, 0x09), (0x00, 0x0b)] {
+        let ops = vec![put_op(a, 1, 1, b"first"), put_op(b, 2, 2, b"second"), vec![b'g', a], vec![b'g', b], vec![b'g', a]];
+        out.push(lru_case(4, 0, ops.clone()));
+        let mut c = vec![tag("mem"), num(1000)];
+        c.extend(ops);
+        out.push(c);
+    }
+    // two packs [blob, delta] of the same shape under pack ids 0 and 2^16 (and 1 / 0xffff_0001), one cache
+    for pids in [[0u8, 3], [1, 6], [2, 8]] {
+        let mut entries = Vec::new();
+        for j in 0..2u8 {
+            let base = if j == 0 { b"hello world, hello pack\n".to_vec() } else { b"jello world, jello pack\n".to_vec() };
+            let mut delta = Vec::new();
+            varint(base.len() as u64, &mut delta);
+            varint(base.len() as u64 + 1, &mut delta);
+            copy_op(0, base.len() as u64, &mut delta);
+            delta.push(1);
+            delta.push(b'p' + j);
+            entries.push(PEntry { k: EK::Base(3), data: base, id: vec![] });
+            entries.push(PEntry { k: EK::Ofs(2 * j as usize), data: delta, id: vec![] });
+        }
+        let mut c = dec_case(b"n,s2:0,s64:0,m1000,o0+s64:0,o1000+m64".to_vec(), vec![1, 3, 1, 3, 0, 2], &entries);
+        c[0] = tag("mdec");
+        c.insert(3, num(2));
+        c.insert(4, pids.to_vec());
+        out.push(c);
+    }
     // packs: chains of length 1..12 over one base, all request orders, all cache kinds
     let all_cfgs = CFG_POOL.join(",").into_bytes();
     for depth in [1usize, 2, 3, 4, 10, 11, 12] {
@@ -1411,8 +1715,13 @@ fn gen(rng: &mut Rng, n: usize) -> Vec<Case> {
         }
     }
     while out.len() < n {
-        if rng.chance(3, 10) {
+        let pickr = rng.below(20);
+        if pickr < 5 {
             out.push(random_lru(rng));
+        } else if pickr < 7 {
+            out.push(random_mem(rng));
+        } else if pickr < 10 {
+            out.push(mdec_case(rng));
         } else {
             let mut entries = synth_pack(rng);
             if rng.chance(1, 7) {
@@ -1433,9 +1742,10 @@ fn git_oracle(c: &Case) -> String {
     if f_str(c, 0) != b"dec" {
         return "-".into();
     }
-    let Some((_cfgs, reqs, entries)) = parse_dec(c) else {
+    let Some(dc) = parse_dec(c) else {
         return "-".into();
     };
+    let (reqs, entries) = (dc.reqs.clone(), dc.entries.clone());
     if reqs.is_empty() || !reqs.iter().all(|i| entries[*i].id.len() == 20) {
         return "-".into();
     }
